@@ -166,7 +166,7 @@ def main(argv=None):
         new.sort(key=lambda kv: (len(engine.canon(kv[1]["case"])), kv[0]))  # smallest first
         checked = 0
         for k, v in new[:25]:
-            if checked < 3:
+            if checked < 3 and not getattr(mod, "NO_REPRODUCE", False):
                 if not reproduce(mod, v):
                     sys.stderr.write("BROKEN: violation vanished on replay: %s\n" % engine.canon(v)[:400])
                     return 2
